@@ -173,6 +173,13 @@ def run_c18(ctx, rng, job):
             expi = expected_info(inspect.signature(boundi))
             check_desc(ctx, attempt(fromMethod, boundi), expi, 'fromMethod-implicit-self', headi, mech='implicit_self_negative_index')
             check_desc(ctx, attempt(fromFunction, fi_, imlevel=1), expi, 'fromFunction-imlevel1-implicit-self', headi, mech='implicit_self_negative_index')
+        # (2c) a leading parameter that has a default itself (def meth(self=None, ...)), described as a method
+        if g['posonly'] == 0 and g['req'] == 0:
+            fd, headd = mkfunc('meth', req=0, dflt=g['dflt'] + 1, varargs=g['varargs'], kwonly=g['kwonly'], kwargs=g['kwargs'],
+                               vname=vname, kname=kname)
+            expd = expected_info(drop_first(inspect.signature(fd)))
+            check_desc(ctx, attempt(fromMethod, fd), expd, 'fromMethod-defaulted-self', headd)
+            check_desc(ctx, attempt(fromFunction, fd, imlevel=1), expd, 'fromFunction-imlevel1-defaulted-self', headd)
         # (3) ABC route
         A = abc.ABCMeta('Gen%d' % idx, (object,), {'meth': fs})
         IA = ABCInterfaceClass('IGen%d' % idx, (ABCInterface,), {'abc': A, '__module__': util.fresh_module()})
@@ -305,6 +312,24 @@ def run_c17(ctx, rng, job):
             bad = [s for s in shapes if not binds(sig, s)]
             expected = [(BrokenMethodImplementation, 'm')] if bad else []
             ctx.count('signature_pairs')
+            if form == 'class':
+                # The same function object under the other view: the class object itself provides an
+                # interface that describes the *unbound* function (instance first).  Verification must not
+                # depend on which view of a function was looked at first (history independence).
+                gi2 = dict(gi, req=gi['req'] + 1)
+                fi2, hi2 = mkfunc('m', **gi2)
+                I2 = InterfaceClass('IVU%d' % idx, (Interface,), {'m': fi2}, __module__=mod)
+                directlyProvides(C, I2)
+                full = inspect.signature(impl)
+                bad2 = [s_ for s_ in call_shapes(gi2) if not binds(full, s_)]
+                exp2 = [(BrokenMethodImplementation, 'm')] if bad2 else []
+                ctx.count('two_view_checks')
+                check_verify(ctx, verifyObject, I2, C, False, exp2,
+                             {'form': 'class-object-after-verifyClass', 'interface': hi2, 'implementation': hm})
+                check_verify(ctx, verifyClass, I, C, False, expected,
+                             {'form': 'class-after-class-object', 'interface': hi, 'implementation': hm})
+                check_verify(ctx, verifyObject, I, C(), False, expected,
+                             {'form': 'bound-after-class-object', 'interface': hi, 'implementation': hm})
             if form != 'function-on-instance' and gm['req'] == 0 and gm['dflt'] == 0 and gm['varargs']:
                 # the same implementation written without a named self: def m(*args[, **kw])
                 impl2, hm2 = mkfunc('m', req=0, dflt=0, varargs=True, kwargs=gm['kwargs'])
